@@ -1,7 +1,7 @@
 from common import COMMON_TB
 
 CONFIG = {
-    "lean_modules": ["SA.Props.C11", "SA.Props.C11Cover"],
+    "lean_modules": ["SA.Props.C11", "SA.Props.C11Cover", "SA.Props.C11Commit"],
     "level_text": "Partial proof. The client's Handshake (all eleven phases, every retry loop, both codec searches, the "
                   "fragment size search) is modelled in Lean as a pure function of an abstract path oracle (what the client "
                   "concludes from each probe). Proved for EVERY oracle and domain: C11_terminates - the repaired handshake "
@@ -24,6 +24,13 @@ CONFIG = {
                   "C11_downcheck_raw - the download check exercises 27 of 32 Base32 characters ... 41 of 128 Base128 "
                   "characters and 36 of 256 raw byte values (never the quote, semicolon, backslash, dot); C11_gap_explicit - "
                   "the map 3->4 passes every Base64 pattern and corrupts the payload 0xE0. "
+                  "Commit steps under a path that fails once (SA.Props.C11Commit over SA.Model.DnsCommit, shapes of the four "
+                  "set-options loops regenerated as SA.Gen.c11CommitReturns/Assigns/Tries with identifier resolution): "
+                  "C11_commit_frag_reports_failure - for every schedule of lost queries / lost answers / acknowledged attempts "
+                  "SwitchFragmentSize returns nil only with the probed size in force at both ends; "
+                  "C11_commit_codec_query_lost_sound - codec and lazy commits leave both ends in agreement under lost queries; "
+                  "witnesses C11_witness_commit_error_swallowed (communication error logged, nil returned: server keeps 1534), "
+                  "C11_witness_commit_frag_server_error and C11_witness_commit_codec_answer_lost (as found). "
                   "The model is tied to the code by running the real Handshake() against the real ServerDnsListener over a "
                   "simulated path for the whole path family and comparing result, parameters and query count.",
     "level_note": "Not a theorem: 'the probes that passed imply that arbitrary payloads are carried' (C11_full is stated, "
@@ -46,7 +53,8 @@ CONFIG = {
     "technique": "Lean 4 proof (decreasing measure, phase-wise inversion) + kernel-checked witnesses + model/code differential "
                  "correspondence over a simulated DNS path family + end-to-end data monitor",
     "components": [{"name": "patterns", "timeout": {"quick": 60, "thorough": 60}},
-                   {"name": "dnshs", "timeout": {"quick": 300, "thorough": 1500}}],
+                   {"name": "dnshs", "timeout": {"quick": 300, "thorough": 1500}},
+                   {"name": "dnscommit", "timeout": {"quick": 300, "thorough": 900}}],
     "rule": "patterns: the real TestPatterns() of 7 codecs, DownloadCodecCheck, Encode(DownloadCodecCheck) per codec and "
             "the codings of the 4 witness inputs against the regenerated tables / C08 models (19 ops, exhaustive). "
             "dnshs: path = query-name map (identity / lower / upper / per-position random case from a seed) x 7-bit strip x "
@@ -65,6 +73,8 @@ CONFIG = {
                                  "path simulator in the harness (go/harness/c11_dnshs.go): packed-wire character maps, type filter, size limit",
                                  "miekg/dns Pack/Unpack, the real codecs and serializer run unmodified under the handshake"],
     "assumptions": ["the path is a deterministic function of the query (same probe, same outcome)",
+                    "dnscommit: a single failure per handshake, at a commit step; a lost ANSWER at the codec steps is not generated "
+                    "(open observation: upstream codec switch, see notes/C11.md)",
                     "an unanswered or dropped query surfaces as an error from the communicator (as dns.Client does), never as smux.ErrTimeout",
                     "C11_fragment_probe_monotone: packed answer size is monotone in question length and payload length (C10 packing)"],
 }
